@@ -314,6 +314,38 @@ fn c14_known_not_in_with_null() {
     assert!(!f1 && !f2);
 }
 
+//@ props=C14 kind=bounded bound="x IN (a, b) over literal operands x in {NULL, TRUE}, a in {FALSE, NULL}, b in {TRUE, NULL}: all 8 combinations" timeout=900
+/// IN with NULL operands / NULL list elements: `NULL IN (…)` and `x IN (…, NULL)` without a match are UNKNOWN,
+/// never TRUE, and a match is TRUE whatever NULLs the list holds (fixed defect F-C14-7: values_equal(NULL, NULL)
+/// was true, so `WHERE x IN (5, NULL)` returned the rows whose x is NULL)
+#[kani::proof]
+#[kani::stub(eyre::capture_handler, vs::capture_handler)]
+#[kani::stub(eyre::private::new_adhoc, vs::new_adhoc)]
+#[kani::stub(eyre::private::format_err, vs::format_err)]
+#[kani::stub(alloc::fmt::format, vs::format)]
+#[kani::unwind(12)]
+fn c14_in_list_null_operands() {
+    let cells: [Value<'static>; 1] = [Value::Null];
+    let row = ExecutorRow::new(&cells);
+    let p = pred();
+    let mut code = 0u8;
+    while code < 8 {
+        let x = if code & 1 == 0 { None } else { Some(true) };
+        let a = if (code >> 1) & 1 == 0 { Some(false) } else { None };
+        let b = if (code >> 2) & 1 == 0 { Some(true) } else { None };
+        let (ex, ea, eb) = (lit(x), lit(a), lit(b));
+        let items: [&Expr; 2] = [&ea, &eb];
+        let e = Expr::InList { expr: &ex, negated: false, list: &items[..] };
+        let want = in_oracle(x, a, b);
+        let f = p.eval_expr(&e, &row);
+        let v = p.eval_value(&e, &row);
+        assert!(f == (want == T::True));
+        assert!((truth_of(&v) == T::True) == (want == T::True));
+        code += 1;
+    }
+    core::mem::forget(p);
+}
+
 //@ props=C14 kind=bounded bound="x [NOT] BETWEEN lo AND hi over literal operands in {FALSE(0), TRUE(1)}: all 16 combinations" timeout=900
 /// [NOT] BETWEEN over non-NULL literal trees: TRUE exactly when lo <= x <= hi (resp. its negation)
 #[kani::proof]
@@ -363,7 +395,7 @@ fn c14_known_not_between_null_bound() {
 //@ props=C14 kind=proof
 /// the equality / ordering kernels behind IN and BETWEEN: value_cmp is None iff an operand is NULL and
 /// otherwise the exact Int order / IEEE order with the documented Int -> f64 coercion; values_equal on
-/// Int/Int is exact equality and a NULL never equals a non-NULL value
+/// Int/Int is exact equality and a NULL equals nothing, not even NULL
 #[kani::proof]
 #[kani::stub(eyre::capture_handler, vs::capture_handler)]
 #[kani::stub(eyre::private::new_adhoc, vs::new_adhoc)]
@@ -386,6 +418,7 @@ fn c14_value_cmp_and_int_equality() {
     let (i, j): (i64, i64) = (kani::any(), kani::any());
     assert!(p.values_equal(&Value::Int(i), &Value::Int(j)) == (i == j));
     assert!(!p.values_equal(&Value::Null, &Value::Int(i)) && !p.values_equal(&Value::Int(i), &Value::Null));
+    assert!(!p.values_equal(&Value::Null, &Value::Null));
     core::mem::forget(p);
 }
 
